@@ -428,3 +428,10 @@ BREAKING += [
                                                   (A, "    # u-type instructions\n    elif head in U_TYPE_INSTRUCTIONS:\n" + _U_ARM_OLD + "\n", ""),
                                                   (A, _LABEL_ARM, "    parser = UPPER_PARSERS.get(head)\n    if parser is not None:\n        return parser(line, head, tokens)\n\n" + _LABEL_ARM)]),
 ]
+
+BREAKING += [
+    # a constructor that does not receive all of its operands (every such line dies with a TypeError)
+    ('c01-parse-missing-operand', ['C01'], [(A, "        return RTypeInstruction(line, name, rd, rs1, rs2)", "        return RTypeInstruction(line, name, rd, rs1)")]),
+    ('c01-parse-factory-count', ['C01'], [(A, _PARSE_ITEM_DEF, _FACTORY + "parse_r_type = plain_args_parser(RTypeInstruction, 2, 'r-type instructions require exactly 3 args')\n\n\n" + _PARSE_ITEM_DEF),
+                                          (A, _R_ARM_OLD, "        return parse_r_type(line, head, tokens)")]),
+]
